@@ -26,6 +26,13 @@
                       bufio.NewWriterSize(w, size), which returns w itself when the destination w is a
                       *bufio.Writer of at least that size: the pool buffer adopts the caller's writer
 
+     "lockacrosswrite" development-mode WriteString keeps watchStateMutex while it writes the string to the caller's writer
+
+   Stalled writers.  The writer of render Stall does not accept anything until the environment action Unstall
+   happens -- which may be never.  Its document is larger than the buffer, so each of its writes (and its flush)
+   waits for the writer.  Invariant IndependentOfStalledWriters: no render waits for a lock whose holder is
+   waiting for its own writer, i.e. a render blocked on ITS writer does not block renders to other writers.
+
    Destinations.  Every goroutine renders into a destination of one kind (DestKinds):
      "plain"       a fresh io.Writer per render,
      "bufioBig"    the goroutine's long-lived *bufio.Writer (size >= the pool buffer's) in front of its output,
@@ -37,7 +44,8 @@ EXTENDS Integers, Sequences, FiniteSets, TLC, RenderPoolOps
 
 CONSTANTS G, M, DocLen, NBuf, FailAt, DevMode, MaxVer, Bug,
           Scratch,    \* TRUE: every render has one step that uses a pooled scratch object
-          DestKinds   \* kinds of destination writers explored (each goroutine gets one)
+          DestKinds,  \* kinds of destination writers explored (each goroutine gets one)
+          Stall       \* the render whose writer is stalled (NoR: none)
 
 Render == G \X (1..M)
 Bufs == 1..NBuf
@@ -55,6 +63,7 @@ VARIABLES pc,        \* per goroutine
           sheld, smade, scr,       \* scratch kind: per goroutine the object in use (0 = none), objects created, per object its content
           buf,       \* per buffer object: [data, w, alias]  data = tokens buffered in its private bufio.Writer, w = the
                      \* destination it points at (a reference), alias = goroutine whose bufio.Writer it uses INSTEAD (0 = none)
+          stalled,   \* the writer of render Stall does not accept bytes (yet)
           dk,        \* per goroutine: kind of its destination
           bw,        \* per goroutine: its own buffered writer in front of its output: [data, tgt]
           sink,      \* per render: tokens its writer received
@@ -66,7 +75,7 @@ VARIABLES pc,        \* per goroutine
           lit,       \* per goroutine: version of the literal list it got from getWatchedStrings
           nextid, ids, tmpid       \* once-handle ids: counter, ids handed out (bag as sequence), per-goroutine read
 
-vars == <<pc, m, i, held, holders, pooled, made, sheld, smade, scr, buf, dk, bw, sink, res, mutex, cache, file, inmap, lit, nextid, ids, tmpid>>
+vars == <<pc, m, i, held, holders, pooled, made, sheld, smade, scr, buf, stalled, dk, bw, sink, res, mutex, cache, file, inmap, lit, nextid, ids, tmpid>>
 
 R(g) == <<g, m[g]>>
 \* tokens without the 4th component (literal: file version; scratch step 0: the data read back from the object)
@@ -84,6 +93,7 @@ Init == /\ pc = [g \in G |-> "id"] /\ m = [g \in G |-> 1] /\ i = [g \in G |-> 1]
         /\ holders = {} /\ pooled = [o \in Obj |-> 0] /\ made = 0
         /\ sheld = [g \in G |-> 0] /\ smade = 0 /\ scr = [b \in Bufs |-> {}]
         /\ buf = [b \in Bufs |-> [data |-> <<>>, w |-> NoRef, alias |-> 0]]
+        /\ stalled = (Stall # <<0, 0>>)
         /\ dk \in [G -> DestKinds]
         /\ bw = [g \in G |-> [data |-> <<>>, tgt |-> UndRef(g)]]
         /\ sink = [r \in Render |-> <<>>] /\ res = [r \in Render |-> "run"]
@@ -97,13 +107,13 @@ Goto(g, l) == pc' = [pc EXCEPT ![g] = l]
 NewHandle(g) ==
     /\ pc[g] = "id"
     /\ IF Bug = "idrace"
-       THEN /\ tmpid' = [tmpid EXCEPT ![g] = nextid] /\ Goto(g, "id2") /\ UNCHANGED <<dk, bw, sheld, smade, scr, nextid, ids>>
+       THEN /\ tmpid' = [tmpid EXCEPT ![g] = nextid] /\ Goto(g, "id2") /\ UNCHANGED <<stalled, dk, bw, sheld, smade, scr, nextid, ids>>
        ELSE /\ nextid' = nextid + 1 /\ ids' = Append(ids, nextid + 1) /\ Goto(g, "get") /\ UNCHANGED tmpid
-    /\ UNCHANGED <<dk, bw, sheld, smade, scr, m, i, held, holders, pooled, made, buf, sink, res, mutex, cache, file, inmap, lit>>
+    /\ UNCHANGED <<stalled, dk, bw, sheld, smade, scr, m, i, held, holders, pooled, made, buf, sink, res, mutex, cache, file, inmap, lit>>
 NewHandle2(g) ==
     /\ pc[g] = "id2"
     /\ nextid' = tmpid[g] + 1 /\ ids' = Append(ids, tmpid[g] + 1) /\ Goto(g, "get")
-    /\ UNCHANGED <<dk, bw, sheld, smade, scr, m, i, held, holders, pooled, made, buf, sink, res, mutex, cache, file, inmap, lit, tmpid>>
+    /\ UNCHANGED <<stalled, dk, bw, sheld, smade, scr, m, i, held, holders, pooled, made, buf, sink, res, mutex, cache, file, inmap, lit, tmpid>>
 
 \* b = bufferPool.Get().(*Buffer)
 DestRef(g) == IF dk[g] = "plain" THEN SinkRef(R(g)) ELSE BwRef(g)
@@ -114,7 +124,7 @@ Existing(g) ==
     /\ pc[g] = "get" /\ dk[g] = "buffer"
     /\ i' = [i EXCEPT ![g] = 1]
     /\ Goto(g, Body(g))
-    /\ UNCHANGED <<dk, bw, sheld, smade, scr, m, held, holders, pooled, made, buf, sink, res, mutex, cache, file, inmap, lit, nextid, ids, tmpid>>
+    /\ UNCHANGED <<stalled, dk, bw, sheld, smade, scr, m, held, holders, pooled, made, buf, sink, res, mutex, cache, file, inmap, lit, nextid, ids, tmpid>>
 
 Get(g) ==
     /\ pc[g] = "get" /\ dk[g] # "buffer"
@@ -124,7 +134,7 @@ Get(g) ==
           /\ pooled' = IF pooled[BufObj(b)] > 0 THEN BGet(pooled, BufObj(b)) ELSE pooled
           /\ made' = IF pooled[BufObj(b)] = 0 THEN made + 1 ELSE made
     /\ Goto(g, "reset")
-    /\ UNCHANGED <<dk, bw, sheld, smade, scr, m, i, buf, sink, res, mutex, cache, file, inmap, lit, nextid, ids, tmpid>>
+    /\ UNCHANGED <<stalled, dk, bw, sheld, smade, scr, m, i, buf, sink, res, mutex, cache, file, inmap, lit, nextid, ids, tmpid>>
 
 \* b.Reset(w)
 Reset(g) ==
@@ -142,7 +152,7 @@ Reset(g) ==
                       ELSE [bw EXCEPT ![a] = [data |-> <<>>, tgt |-> DestRef(g)]]
     /\ i' = [i EXCEPT ![g] = 1]
     /\ Goto(g, Body(g))
-    /\ UNCHANGED <<dk, sheld, smade, scr, m, held, holders, pooled, made, sink, res, mutex, cache, file, inmap, lit, nextid, ids, tmpid>>
+    /\ UNCHANGED <<stalled, dk, sheld, smade, scr, m, held, holders, pooled, made, sink, res, mutex, cache, file, inmap, lit, nextid, ids, tmpid>>
 
 \* a write of the render: into the caller's own Buffer (kind "buffer"), else into the pool buffer's bufio.Writer --
 \* which is the adopting goroutine's writer if there is an alias
@@ -161,21 +171,21 @@ SGet(g) ==
           /\ pooled' = IF pooled[ScrObj(b)] > 0 THEN BGet(pooled, ScrObj(b)) ELSE pooled
           /\ smade' = IF pooled[ScrObj(b)] = 0 THEN smade + 1 ELSE smade
     /\ Goto(g, "sadd")
-    /\ UNCHANGED <<dk, bw, scr, m, i, held, made, buf, sink, res, mutex, cache, file, inmap, lit, nextid, ids, tmpid>>
+    /\ UNCHANGED <<stalled, dk, bw, scr, m, i, held, made, buf, sink, res, mutex, cache, file, inmap, lit, nextid, ids, tmpid>>
 
 \* the render puts its own data into the object (class names, rendered bytes, ...)
 SAdd(g) ==
     /\ pc[g] = "sadd"
     /\ scr' = [scr EXCEPT ![sheld[g]] = @ \cup {R(g)}]
     /\ Goto(g, "sread")
-    /\ UNCHANGED <<dk, bw, sheld, smade, m, i, held, holders, pooled, made, buf, sink, res, mutex, cache, file, inmap, lit, nextid, ids, tmpid>>
+    /\ UNCHANGED <<stalled, dk, bw, sheld, smade, m, i, held, holders, pooled, made, buf, sink, res, mutex, cache, file, inmap, lit, nextid, ids, tmpid>>
 
 \* ... and reads the result back into its document
 SRead(g) ==
     /\ pc[g] = "sread"
     /\ Emit(g, <<g, m[g], 0, scr[sheld[g]]>>)
     /\ Goto(g, "sput")
-    /\ UNCHANGED <<dk, sheld, smade, scr, m, i, held, holders, pooled, made, sink, res, mutex, cache, file, inmap, lit, nextid, ids, tmpid>>
+    /\ UNCHANGED <<stalled, dk, sheld, smade, scr, m, i, held, holders, pooled, made, sink, res, mutex, cache, file, inmap, lit, nextid, ids, tmpid>>
 
 \* release: clear the object and Put it; the render does not touch it afterwards
 SPut(g) ==
@@ -185,7 +195,7 @@ SPut(g) ==
     /\ holders' = HDrop(holders, R(g), ScrObj(sheld[g]))
     /\ IF Bug = "doubleput" THEN Goto(g, "sput2") /\ UNCHANGED sheld
                             ELSE Goto(g, IF DevMode THEN "lock" ELSE "write") /\ sheld' = [sheld EXCEPT ![g] = 0]
-    /\ UNCHANGED <<dk, bw, smade, m, i, held, made, buf, sink, res, mutex, cache, file, inmap, lit, nextid, ids, tmpid>>
+    /\ UNCHANGED <<stalled, dk, bw, smade, m, i, held, made, buf, sink, res, mutex, cache, file, inmap, lit, nextid, ids, tmpid>>
 
 \* "doubleput": the caller's deferred release clears and Puts the same object once more
 SPut2(g) ==
@@ -194,7 +204,7 @@ SPut2(g) ==
     /\ pooled' = BPut(pooled, ScrObj(sheld[g]))
     /\ sheld' = [sheld EXCEPT ![g] = 0]
     /\ Goto(g, IF DevMode THEN "lock" ELSE "write")
-    /\ UNCHANGED <<dk, bw, smade, m, i, held, holders, made, buf, sink, res, mutex, cache, file, inmap, lit, nextid, ids, tmpid>>
+    /\ UNCHANGED <<stalled, dk, bw, smade, m, i, held, holders, made, buf, sink, res, mutex, cache, file, inmap, lit, nextid, ids, tmpid>>
 
 (* development mode: runtime.WriteString -> getWatchedStrings(txtFilePath) *)
 CacheLock(g) ==
@@ -202,49 +212,66 @@ CacheLock(g) ==
     /\ IF Bug = "cacheunlocked"
        THEN Goto(g, "lookup") /\ UNCHANGED mutex            \* fast path reads the map before locking
        ELSE mutex = 0 /\ mutex' = g /\ Goto(g, "lookup")
-    /\ UNCHANGED <<dk, bw, sheld, smade, scr, m, i, held, holders, pooled, made, buf, sink, res, cache, file, inmap, lit, nextid, ids, tmpid>>
+    /\ UNCHANGED <<stalled, dk, bw, sheld, smade, scr, m, i, held, holders, pooled, made, buf, sink, res, cache, file, inmap, lit, nextid, ids, tmpid>>
 
 \* state, cached := watchModeCache[txtFilePath]  ... begins touching the map
 CacheLookup(g) ==
     /\ pc[g] = "lookup"
     /\ inmap' = inmap \cup {g}
     /\ Goto(g, "decide")
-    /\ UNCHANGED <<dk, bw, sheld, smade, scr, m, i, held, holders, pooled, made, buf, sink, res, mutex, cache, file, lit, nextid, ids, tmpid>>
+    /\ UNCHANGED <<stalled, dk, bw, sheld, smade, scr, m, i, held, holders, pooled, made, buf, sink, res, mutex, cache, file, lit, nextid, ids, tmpid>>
 
 \* hit (fresh enough / not modified): return state.strings; miss or modified: cacheStrings writes the map
 CacheDecide(g) ==
     /\ pc[g] = "decide"
     /\ \/ /\ cache.cached                                   \* time.Since(modTime) < 100ms, or ModTime not after
-          /\ lit' = [lit EXCEPT ![g] = cache.ver] /\ UNCHANGED <<dk, bw, sheld, smade, scr, cache, mutex>>
+          /\ lit' = [lit EXCEPT ![g] = cache.ver] /\ UNCHANGED <<stalled, dk, bw, sheld, smade, scr, cache, mutex>>
        \/ /\ ~cache.cached \/ file > cache.ver              \* cacheStrings: read the file, store it
           /\ (Bug = "cacheunlocked") => (mutex = 0 \/ mutex = g)
           /\ cache' = [cached |-> TRUE, ver |-> file]
           /\ lit' = [lit EXCEPT ![g] = file]
           /\ mutex' = IF Bug = "cacheunlocked" THEN g ELSE mutex
-    /\ Goto(g, "unlock")
-    /\ UNCHANGED <<dk, bw, sheld, smade, scr, m, i, held, holders, pooled, made, buf, sink, res, file, inmap, nextid, ids, tmpid>>
+    /\ Goto(g, IF Bug = "lockacrosswrite" THEN "write" ELSE "unlock")      \* the seeded defect unlocks after the write only
+    /\ UNCHANGED <<stalled, dk, bw, sheld, smade, scr, m, i, held, holders, pooled, made, buf, sink, res, file, inmap, nextid, ids, tmpid>>
 
 CacheUnlock(g) ==
     /\ pc[g] = "unlock"
     /\ inmap' = inmap \ {g}
     /\ mutex' = IF mutex = g THEN 0 ELSE mutex
     /\ Goto(g, "write")
-    /\ UNCHANGED <<dk, bw, sheld, smade, scr, m, i, held, holders, pooled, made, buf, sink, res, cache, file, lit, nextid, ids, tmpid>>
+    /\ UNCHANGED <<stalled, dk, bw, sheld, smade, scr, m, i, held, holders, pooled, made, buf, sink, res, cache, file, lit, nextid, ids, tmpid>>
+
+\* "lockacrosswrite": defer watchStateMutex.Unlock() runs when WriteString returns, after io.WriteString(w, s)
+CacheUnlockAfterWrite(g) ==
+    /\ pc[g] = "unlockw"
+    /\ inmap' = inmap \ {g}
+    /\ mutex' = IF mutex = g THEN 0 ELSE mutex
+    /\ Goto(g, IF i[g] <= DocLen THEN "lock" ELSE IF dk[g] = "buffer" THEN "cflush" ELSE "release")
+    /\ UNCHANGED <<stalled, dk, bw, sheld, smade, scr, m, i, held, holders, pooled, made, buf, sink, res, cache, file, lit, nextid, ids, tmpid>>
+
+\* the environment: the stalled writer starts accepting bytes (this may never happen)
+Unstall ==
+    /\ stalled /\ stalled' = FALSE
+    /\ UNCHANGED <<dk, bw, sheld, smade, scr, pc, m, i, held, holders, pooled, made, buf, sink, res, mutex, cache, file, inmap, lit, nextid, ids, tmpid>>
+
+\* a render whose writer is stalled waits inside its write
+WaitsForWriter(g) == R(g) = Stall /\ stalled
 
 \* `templ generate --watch` rewrites the literal file
 FileWrite ==
     /\ DevMode /\ file < MaxVer
     /\ file' = file + 1
-    /\ UNCHANGED <<dk, bw, sheld, smade, scr, pc, m, i, held, holders, pooled, made, buf, sink, res, mutex, cache, inmap, lit, nextid, ids, tmpid>>
+    /\ UNCHANGED <<stalled, dk, bw, sheld, smade, scr, pc, m, i, held, holders, pooled, made, buf, sink, res, mutex, cache, inmap, lit, nextid, ids, tmpid>>
 
 \* io.WriteString(buffer, literal i): buffered in the render's buffer object
 Write(g) ==
-    /\ pc[g] = "write"
+    /\ pc[g] = "write" /\ ~WaitsForWriter(g)
     /\ Emit(g, <<g, m[g], i[g], lit[g]>>)
     /\ i' = [i EXCEPT ![g] = @ + 1]
-    /\ Goto(g, IF i[g] < DocLen THEN (IF DevMode THEN "lock" ELSE "write")
+    /\ Goto(g, IF DevMode /\ Bug = "lockacrosswrite" THEN "unlockw"
+                ELSE IF i[g] < DocLen THEN (IF DevMode THEN "lock" ELSE "write")
                 ELSE IF dk[g] = "buffer" THEN "cflush" ELSE "release")
-    /\ UNCHANGED <<dk, sheld, smade, scr, m, held, holders, pooled, made, sink, res, mutex, cache, file, inmap, lit, nextid, ids, tmpid>>
+    /\ UNCHANGED <<stalled, dk, sheld, smade, scr, m, held, holders, pooled, made, sink, res, mutex, cache, file, inmap, lit, nextid, ids, tmpid>>
 
 \* ReleaseBuffer: err = b.Flush(); bufferPool.Put(b)      ("putfirst": the other way round)
 \* moving buffered tokens on to where a writer points: a render's plain writer (the writer of render FailAt fails
@@ -257,6 +284,7 @@ BwAfter(b0, tgt, data) == IF tgt[1] = "bw" THEN [b0 EXCEPT ![tgt[2]].data = @ \o
 
 Flush(g) ==
     /\ pc[g] = IF Bug = "putfirst" THEN "flush2" ELSE "release"
+    /\ ~WaitsForWriter(g)
     /\ LET b == held[g]
            a == buf[b].alias
            data == IF a = 0 THEN buf[b].data ELSE bw[a].data
@@ -269,7 +297,7 @@ Flush(g) ==
     /\ IF Bug = "putfirst"
        THEN /\ holders' = HDrop(holders, R(g), BufObj(held[g])) /\ held' = [held EXCEPT ![g] = 0] /\ Goto(g, "end")
        ELSE /\ holders' = HDrop(holders, R(g), BufObj(held[g])) /\ UNCHANGED held /\ Goto(g, "put")
-    /\ UNCHANGED <<dk, sheld, smade, scr, m, i, pooled, made, mutex, cache, file, inmap, lit, nextid, ids, tmpid>>
+    /\ UNCHANGED <<stalled, dk, sheld, smade, scr, m, i, pooled, made, mutex, cache, file, inmap, lit, nextid, ids, tmpid>>
 
 Put(g) ==
     /\ pc[g] = IF Bug = "putfirst" THEN "release" ELSE "put"
@@ -277,7 +305,7 @@ Put(g) ==
     /\ IF Bug = "putfirst"
        THEN Goto(g, "flush2") /\ UNCHANGED held
        ELSE Goto(g, IF dk[g] = "plain" THEN "end" ELSE "cflush") /\ held' = [held EXCEPT ![g] = 0]
-    /\ UNCHANGED <<dk, bw, sheld, smade, scr, m, i, holders, made, buf, sink, res, mutex, cache, file, inmap, lit, nextid, ids, tmpid>>
+    /\ UNCHANGED <<stalled, dk, bw, sheld, smade, scr, m, i, holders, made, buf, sink, res, mutex, cache, file, inmap, lit, nextid, ids, tmpid>>
 
 \* Render has returned; the caller flushes its own buffered writer
 CallerFlush(g) ==
@@ -286,19 +314,19 @@ CallerFlush(g) ==
     /\ bw' = BwAfter([bw EXCEPT ![g].data = <<>>], bw[g].tgt, bw[g].data)
     /\ res' = [res EXCEPT ![R(g)] = "nil"]
     /\ Goto(g, "end")
-    /\ UNCHANGED <<dk, sheld, smade, scr, m, i, held, holders, pooled, made, buf, mutex, cache, file, inmap, lit, nextid, ids, tmpid>>
+    /\ UNCHANGED <<stalled, dk, sheld, smade, scr, m, i, held, holders, pooled, made, buf, mutex, cache, file, inmap, lit, nextid, ids, tmpid>>
 
 \* the goroutine starts its next render
 EndRender(g) ==
     /\ pc[g] = "end"
     /\ IF m[g] < M THEN m' = [m EXCEPT ![g] = @ + 1] /\ Goto(g, "get")
                    ELSE UNCHANGED m /\ Goto(g, "done")
-    /\ UNCHANGED <<dk, bw, sheld, smade, scr, i, held, holders, pooled, made, buf, sink, res, mutex, cache, file, inmap, lit, nextid, ids, tmpid>>
+    /\ UNCHANGED <<stalled, dk, bw, sheld, smade, scr, i, held, holders, pooled, made, buf, sink, res, mutex, cache, file, inmap, lit, nextid, ids, tmpid>>
 
 Next == \/ \E g \in G : \/ NewHandle(g) \/ NewHandle2(g) \/ Existing(g) \/ Get(g) \/ Reset(g) \/ SGet(g) \/ SAdd(g) \/ SRead(g) \/ SPut(g) \/ SPut2(g)
                         \/ CacheLock(g) \/ CacheLookup(g)
-                        \/ CacheDecide(g) \/ CacheUnlock(g) \/ Write(g) \/ Flush(g) \/ Put(g) \/ CallerFlush(g) \/ EndRender(g)
-        \/ FileWrite
+                        \/ CacheDecide(g) \/ CacheUnlock(g) \/ CacheUnlockAfterWrite(g) \/ Write(g) \/ Flush(g) \/ Put(g) \/ CallerFlush(g) \/ EndRender(g)
+        \/ FileWrite \/ Unstall
 
 Spec == Init /\ [][Next]_vars
 
@@ -321,6 +349,11 @@ Isolated == \A r \in Render :
 OwnDestinationOnly == /\ \A b \in Bufs : buf[b].alias = 0
                       /\ \A g \in G : /\ bw[g].tgt = UndRef(g)
                                        /\ \A k \in 1..Len(bw[g].data) : bw[g].data[k][1] = g
+
+\* C14: a render that is blocked on ITS writer does not block renders to other writers: nobody waits for a lock
+\* whose holder is waiting for its writer (the stalled writer may never come back: Unstall need not happen)
+IndependentOfStalledWriters ==
+    \A g, h \in G : (g # h /\ pc[g] = "lock" /\ mutex = h) => ~(pc[h] = "write" /\ WaitsForWriter(h))
 
 \* C14: the cache map is only touched by the holder of watchStateMutex
 MutexProtectsCache == /\ Cardinality(inmap) <= 1
